@@ -206,6 +206,13 @@ func cmdConcColl(o *Out, line string, f []string) {
 		}(g)
 	}
 	wg.Wait()
+	if wrapper == "buffered" && (seed/2)%2 == 1 {
+		// the context is cancelled while the observers are still calling Resolve / Info / SetMetadata: a call in flight
+		// at the cancellation neither blocks nor spoils what the collector returns afterwards
+		cancel()
+		time.Sleep(time.Millisecond)
+		o.count("conc-coll-cancel-under-observers")
+	}
 	close(stopObs)
 	obsWg.Wait()
 	total := 0
